@@ -323,3 +323,105 @@ impl Val for Vec<(String, u8)> {
     }
     storage!(Vec<(String, u8)>);
 }
+
+/// A user type with its own `MemoryEstimator`: the figure it reports (deliberately unrelated to what it
+/// really owns) is what `max_memory` must be charged with.
+#[derive(Clone, Debug)]
+pub struct UserBlob {
+    pub tag: String,
+    pub declared: usize,
+}
+
+impl MemoryEstimator for UserBlob {
+    fn estimate_memory(&self) -> usize {
+        self.declared
+    }
+}
+
+impl Val for UserBlob {
+    const NAME: &'static str = "UserBlob";
+    fn make(key: u8, variant: u8, payload: usize) -> Self {
+        UserBlob { tag: tag(key, variant), declared: payload + 7 }
+    }
+    fn ident(&self) -> (u8, u8) {
+        untag(&self.tag)
+    }
+    fn footprint(&self) -> usize {
+        self.declared
+    }
+    storage!(UserBlob);
+}
+
+impl Val for Box<Vec<String>> {
+    const NAME: &'static str = "Box<Vec<String>>";
+    fn make(key: u8, variant: u8, payload: usize) -> Self {
+        let mut v = Vec::with_capacity(2);
+        v.push(string_with(key, variant, payload.saturating_sub(3 * size_of::<String>()).max(6)));
+        Box::new(v)
+    }
+    fn ident(&self) -> (u8, u8) {
+        untag(&self[0])
+    }
+    fn footprint(&self) -> usize {
+        // pointer inline; on the heap the Vec header, its buffer (capacity slots) and each element's buffer
+        size_of::<Box<Vec<String>>>() + size_of::<Vec<String>>() + self.capacity() * size_of::<String>() + self.iter().map(|s| s.capacity()).sum::<usize>()
+    }
+    storage!(Box<Vec<String>>);
+}
+
+impl Val for Option<(String, Vec<u8>)> {
+    const NAME: &'static str = "Option<(String,Vec<u8>)>";
+    fn make(key: u8, variant: u8, payload: usize) -> Self {
+        Some((string_with(key, variant, (payload / 3).max(4)), bytes_with(key, variant, payload - payload / 3)))
+    }
+    fn ident(&self) -> (u8, u8) {
+        self.as_ref().map_or((255, 255), |x| untag(&x.0))
+    }
+    fn footprint(&self) -> usize {
+        size_of::<Option<(String, Vec<u8>)>>() + self.as_ref().map_or(0, |x| x.0.capacity() + x.1.capacity())
+    }
+    storage!(Option<(String, Vec<u8>)>);
+}
+
+impl Val for Result<Vec<u8>, String> {
+    const NAME: &'static str = "Result<Vec<u8>,String>";
+    fn make(key: u8, variant: u8, payload: usize) -> Self {
+        if variant % 2 == 0 {
+            Ok(bytes_with(key, variant, payload))
+        } else {
+            Err(string_with(key, variant, payload))
+        }
+    }
+    fn ident(&self) -> (u8, u8) {
+        match self {
+            Ok(v) => (v[0], v[1]),
+            Err(s) => untag(s),
+        }
+    }
+    fn footprint(&self) -> usize {
+        size_of::<Result<Vec<u8>, String>>()
+            + match self {
+                Ok(v) => v.capacity(),
+                Err(s) => s.capacity(),
+            }
+    }
+    storage!(Result<Vec<u8>, String>);
+}
+
+impl Val for Vec<Box<String>> {
+    const NAME: &'static str = "Vec<Box<String>>";
+    fn make(key: u8, variant: u8, payload: usize) -> Self {
+        let mut v = Vec::with_capacity(3);
+        let rest = payload.saturating_sub(3 * size_of::<Box<String>>() + 2 * size_of::<String>()).max(8);
+        v.push(Box::new(string_with(key, variant, rest / 2)));
+        v.push(Box::new(string_with(key, variant, rest - rest / 2)));
+        v
+    }
+    fn ident(&self) -> (u8, u8) {
+        untag(&self[0])
+    }
+    fn footprint(&self) -> usize {
+        size_of::<Vec<Box<String>>>() + self.capacity() * size_of::<Box<String>>() + self.iter().map(|b| size_of::<String>() + b.capacity()).sum::<usize>()
+    }
+    storage!(Vec<Box<String>>);
+}
